@@ -4,8 +4,11 @@ package c14
 import (
 	"bytes"
 	"compress/flate"
+	"compress/gzip"
+	"compress/zlib"
 	"encoding/base64"
 	"fmt"
+	"io"
 	"net/http"
 	"runtime"
 	"strings"
@@ -21,7 +24,10 @@ const allocBound = 64 << 20 // fixed bound, independent of the inflated size (io
 
 // bomb builds a document of the given inflated size with the padding at the given place, deflated without
 // materialising more than a window at a time.
-func bomb(size int, place string, valid bool) string {
+func bomb(size int, place string, valid bool) string { return bombIn("raw", size, place, valid) }
+
+// bombIn wraps the stream in the given container: raw DEFLATE (what the binding specifies), zlib or gzip.
+func bombIn(container string, size int, place string, valid bool) string {
 	a := sso.BaseReq("_bomb")
 	doc := string(a.XML(idp.DefaultStyle))
 	var pre, post string
@@ -43,7 +49,15 @@ func bomb(size int, place string, valid bool) string {
 		post += "<unclosed"
 	}
 	var buf bytes.Buffer
-	w, _ := flate.NewWriter(&buf, 9)
+	var w io.WriteCloser
+	switch container {
+	case "zlib":
+		w, _ = zlib.NewWriterLevel(&buf, 9)
+	case "gzip":
+		w, _ = gzip.NewWriterLevel(&buf, 9)
+	default:
+		w, _ = flate.NewWriter(&buf, 9)
+	}
 	w.Write([]byte(pre))
 	pad := size - len(pre) - len(post)
 	chunk := bytes.Repeat([]byte("A"), 1<<16)
@@ -153,6 +167,41 @@ func Run(dir, tier string, seed int64) error {
 			}
 		}
 	}
-	run.Res.Rule = "DEFLATE payloads inflating to 1 MiB .. 128 MiB (thorough: 1 GiB) around the 10 MiB cap (cap-1, cap, cap+1) through the exported InflateAndDecode (result compared with the Coq read-loop model) and, with the padding in a comment / text / attribute value / after the root element, nested in valid and invalid documents, through SSO (query and form) and logout (query and form); runtime.MemStats.TotalAlloc around each call must stay below a fixed 64 MiB and oversized payloads must not be accepted. distinct = (entry point, inflated size, padding place, document validity)."
+	// (3) the same bombs in other containers a lenient decoder might also accept (zlib, gzip): must be rejected cheaply too
+	for _, container := range []string{"zlib", "gzip"} {
+		for i, place := range []string{"comment", "after-root"} {
+			n := 64 << 20
+			msg := bombIn(container, n, place, true)
+			var derr error
+			alloc := measure(func() { _, derr = samlxml.InflateAndDecode(idp.Deflate, true, msg) })
+			run.Res.Evaluations++
+			desc := map[string]interface{}{"what": "InflateAndDecode", "container": container, "inflated_bytes": n, "request_bytes": len(msg), "padding": place, "error": derr != nil, "total_alloc": alloc}
+			run.Distinct(fmt.Sprintf("codec/%s/%s", container, place))
+			if alloc > allocBound {
+				run.Fail(coqgen.Failure{ID: id, Class: "inflate-allocation-unbounded", What: fmt.Sprintf("InflateAndDecode allocated %d MiB for a %d kB %s message inflating to %d MiB", alloc>>20, len(msg)>>10, container, n>>20), Input: desc})
+			}
+			if derr == nil {
+				run.Fail(coqgen.Failure{ID: id, Class: "oversized-payload-accepted", What: fmt.Sprintf("InflateAndDecode returned a %s payload inflating to %d MiB", container, n>>20), Input: desc})
+			}
+			id++
+			e := eps[(i*2+len(container))%len(eps)]
+			var rep *idp.Reply
+			env.Storage.ResetLog()
+			alloc = measure(func() { rep = env.Do(e.spec(msg).HTTP()) })
+			run.Res.Evaluations++
+			accepted := env.Storage.CountOp("CreateAuthRequest") > 0 || rep.Status == "urn:oasis:names:tc:SAML:2.0:status:Success"
+			desc = map[string]interface{}{"endpoint": e.name, "container": container, "inflated_bytes": n, "request_bytes": len(msg), "padding": place, "accepted": accepted, "total_alloc": alloc, "reply": rep.Kind, "code": rep.Code}
+			run.Count("endpoint=" + e.name)
+			run.Distinct(fmt.Sprintf("%s/%s/%s", e.name, container, place))
+			if alloc > allocBound {
+				run.Fail(coqgen.Failure{ID: id, Class: "inflate-allocation-unbounded", What: fmt.Sprintf("%s allocated %d MiB for a %d kB %s request inflating to %d MiB", e.name, alloc>>20, len(msg)>>10, container, n>>20), Input: desc})
+			}
+			if accepted {
+				run.Fail(coqgen.Failure{ID: id, Class: "oversized-payload-accepted", What: fmt.Sprintf("%s accepted a %s payload inflating to %d MiB", e.name, container, n>>20), Input: desc})
+			}
+			id++
+		}
+	}
+	run.Res.Rule = "DEFLATE payloads inflating to 1 MiB .. 128 MiB (thorough: 1 GiB) around the 10 MiB cap (cap-1, cap, cap+1) through the exported InflateAndDecode (result compared with the Coq read-loop model) and, with the padding in a comment / text / attribute value / after the root element, nested in valid and invalid documents, through SSO (query and form) and logout (query and form); the same 64 MiB bombs wrapped as zlib and gzip streams; runtime.MemStats.TotalAlloc around each call must stay below a fixed 64 MiB and oversized payloads must not be accepted. distinct = (entry point, inflated size, padding place, document validity)."
 	return run.Finish()
 }
